@@ -3,6 +3,7 @@ import TaurexModel.Sigma
 import TaurexModel.MixLookup
 import TaurexModel.Transmission
 import TaurexModel.Ops.C01
+import TaurexModel.KTau
 
 namespace Taurex.Ops.C03
 open Taurex.Proto Taurex.Sigma Taurex.Ops.C01
@@ -92,9 +93,27 @@ def muOp (args : List String) : Option String :=
     let mass : String → Float := fun n => ((ms.find? (fun p => p.1 == n)).map (·.2)).getD 0
     pure (fList fF ((List.range nl).map (Taurex.MixLookup.muOf mass act ina)))) args
 
+/-- `c03.ktau nwn sigma[layer][wn][g] paths[l][k] dens ws acc[l][wn]` → per tangent layer `l`, per wavenumber: `tau[l,wn]` after
+    the correlated-k kernel `contribute_ktau` has run on a buffer that already holds `acc[l][wn]` (what the sources added to the
+    model earlier have put into the layer) -/
+def ktauOp (args : List String) : Option String :=
+  run (do
+    let nwn ← nat
+    let sig ← listOf (listOf (listOf flt))
+    let paths ← listOf (listOf flt)
+    let dens ← listOf flt
+    let ws ← listOf flt
+    let acc ← listOf (listOf flt)
+    let n := dens.length
+    let out := (List.range n).map (fun l =>
+      (List.range nwn).map (fun j =>
+        Taurex.KTau.ktauRow (sig.map (fun layerRow => layerRow.getD j [])) (paths.getD l []) dens ws n l
+          ((acc.getD l []).getD j 0)))
+    pure (fList (fList fF) out)) args
+
 def ops : List Op :=
   [("c03.sigma_abs", sigmaAbsOp), ("c03.sigma_cia", sigmaCiaOp), ("c03.sigma_scaled", sigmaScaledOp),
-   ("c03.gasmix", gasMixOp), ("c03.makefree", makeFreeOp), ("c03.mu", muOp)]
+   ("c03.gasmix", gasMixOp), ("c03.makefree", makeFreeOp), ("c03.mu", muOp), ("c03.ktau", ktauOp)]
   ++ Taurex.Ops.C01.ops
 
 end Taurex.Ops.C03
